@@ -661,19 +661,20 @@ static LinkedList *bufr_repl_descriptors
       if (( j == 0 )&& s4)
          {
          BUFR_Sequence *bsq;
-         int len;
+         int64_t len;
 
          bsq = bufr_create_sequence( lst );
          len = bufr_estimate_seq_length( bsq, tbls );
+         if (len <= 0) len = 1; /* every replication is expected to hold some data */
          len = len * count / 8;
          bsq->list = NULL;
          bufr_free_sequence( bsq );
-         if (len > (s4->max_len*3))
+         if (len > ((int64_t)s4->max_len*3))
             {
             char   errmsg[256];
 
             bufr_free_descriptorList( lst );
-            sprintf( errmsg, _("Error: BUFR Message is too short: %d > maxlen=%d\n"), len, s4->max_len );
+            sprintf( errmsg, _("Error: BUFR Message is too short: %lld > maxlen=%d\n"), (long long)len, s4->max_len );
             bufr_print_debug( errmsg );
             return NULL;
             }
@@ -2168,8 +2169,7 @@ int bufr_estimate_seq_length( BUFR_Sequence *seq, BUFR_Tables *tbls )
       else
          {
          if ((cb->flags & FLAG_SKIPPED)
-               ||(cb->flags & FLAG_EXPANDED)
-               ||(cb->flags & FLAG_IGNORED))
+               ||(cb->flags & FLAG_EXPANDED))
             {
 #if DEBUG
             sprintf ( errmsg, "Skipping desc=%d\n", cb->descriptor );
